@@ -208,4 +208,67 @@ Section RankPass.
             rewrite Nat.add_0_r. f_equal. exact Hsp. }
           split; [constructor; [lia|assumption]|eauto].
   Qed.
+
+  (* ---------- rank sum ---------- *)
+  Lemma rank_sum2_lin : forall gs i,
+    rank_sum2 gs i = (2 * (Z.of_nat i + Z.of_nat (lsum (gsizes gs))) + 1) * Z.of_nat (lsum (gnx1s gs))
+                     - lin (gsizes gs) (gnx1s gs).
+  Proof.
+    induction gs as [|x gs IH]; intros i; cbn [rank_sum2 gsizes gnx1s map lsum lin]; [lia|].
+    fold (gsizes gs). fold (gnx1s gs). rewrite IH. unfold acoef.
+    set (g := gsize x). set (k := gnx1 x). set (S' := lsum (gsizes gs)). set (K' := lsum (gnx1s gs)).
+    set (L := lin (gsizes gs) (gnx1s gs)).
+    assert (E: (if (k =? 0)%nat then 0 else (Z.of_nat (i + g) + Z.of_nat (i + 1)) * Z.of_nat k)
+               = (2 * Z.of_nat i + Z.of_nat g + 1) * Z.of_nat k).
+    { destruct (Nat.eqb_spec k 0) as [->|]; [cbn; lia|]. rewrite !Nat2Z.inj_add. cbn [Z.of_nat]. lia. }
+    rewrite E. rewrite !Nat2Z.inj_add. nia.
+  Qed.
+
+  Lemma zsum_perm {X} (f : X -> Z) l l' : Permutation l l' -> zsum f l = zsum f l'.
+  Proof. induction 1; cbn [zsum]; lia. Qed.
+  Lemma twoU_pairs_perm (c : A -> A -> comparison) x1 x1' x2 x2' :
+    Permutation x1 x1' -> Permutation x2 x2' -> twoU_pairs c x1 x2 = twoU_pairs c x1' x2'.
+  Proof.
+    intros H1 H2. unfold twoU_pairs. rewrite (zsum_perm _ _ _ H1). apply zsum_ext. intros a. apply zsum_perm. exact H2.
+  Qed.
+  Lemma twoU_pairs_flip s1 s2 : twoU_pairs flip s1 s2 = twoU_pairs cmp s2 s1.
+  Proof. unfold twoU_pairs. rewrite zsum_swap. reflexivity. Qed.
+
+  Definition merged (x1 x2 : list A) : list (A * bool) := lmerge cmp (msort cmp x1) (msort cmp x2).
+
+  Lemma merged_sorted x1 x2 : sorted leb (mvals (merged x1 x2)).
+  Proof. apply lmerge_sorted; apply isort_sorted; first [exact leb_total | exact leb_trans]. Qed.
+  Lemma merged_lengths x1 x2 :
+    length (mlabs (merged x1 x2)) = length (mvals (merged x1 x2)) /\
+    length (mvals (merged x1 x2)) = (length x1 + length x2)%nat.
+  Proof.
+    unfold mlabs, mvals. rewrite !map_length. split; [reflexivity|].
+    rewrite <- (map_length fst). fold (mvals (merged x1 x2)). unfold merged.
+    rewrite (Permutation_length (lmerge_perm _ _)), app_length. unfold msort. now rewrite !isort_length.
+  Qed.
+
+  (* C01: U1 = R1 - n1(n1+1)/2 computed from average ranks is the pair count:
+     2*U1 = 2*#{(a,b) : a > b} + #{(a,b) : a = b} *)
+  Theorem mw_U_is_pair_count x1 x2 : ms_twoU (mw_stat cmp x1 x2) = twoU_pairs cmp x1 x2.
+  Proof.
+    unfold mw_stat. cbn [ms_twoU]. fold (merged x1 x2).
+    set (m := merged x1 x2). set (gs := tgroups cmp m).
+    destruct (tgroups_spec m (merged_sorted x1 x2)) as (Hg & Hsp & Hpos & _). fold gs in Hg, Hsp, Hpos.
+    destruct (merged_lengths x1 x2) as [HL1 HL2]. fold m in HL1, HL2.
+    pose proof (grouped_length flip _ _ Hg) as HN.
+    assert (Hlab: length (mlabs m) = lsum (gsizes gs)) by lia.
+    pose proof (twoU_lab_split flip (gsizes gs) (mvals m) (mlabs m) Hg Hlab) as HU. rewrite Hsp in HU.
+    assert (Hlenk: length (gnx1s gs) = length (gsizes gs)) by (unfold gnx1s, gsizes; now rewrite !map_length).
+    rewrite (twoU_split_formula _ _ Hlenk) in HU.
+    pose proof (gsplit_sum (gsizes gs) (mlabs m) Hlab) as Hk. rewrite Hsp in Hk.
+    destruct (lmerge_sel (msort cmp x1) (msort cmp x2)) as [S1 S2]. fold (merged x1 x2) in S1, S2. fold m in S1, S2.
+    unfold twoU_lab in HU. rewrite S1, S2, twoU_pairs_flip in HU.
+    rewrite (twoU_pairs_swap cmp cmp_antisym (msort cmp x1) (msort cmp x2)) in HU.
+    assert (Hn1: ntrue (mlabs m) = length x1).
+    { rewrite <- (sel_true_length (mlabs m) (mvals m) HL1), S1. unfold msort. apply isort_length. }
+    unfold msort in HU. rewrite !isort_length in HU.
+    rewrite (twoU_pairs_perm cmp (isort leb x1) x1 (isort leb x2) x2) in HU
+      by (symmetry; apply isort_perm).
+    rewrite rank_sum2_lin. rewrite Hk, Hn1 in *. rewrite <- HN, HL2. rewrite Nat2Z.inj_add. cbn [Z.of_nat]. nia.
+  Qed.
 End RankPass.
